@@ -16,7 +16,7 @@ from gen import vocab
 PROP = "C09"
 LEVEL = "exploration"
 HASH_VARIANTS = 1
-RUNS = {"quick": 6000, "thorough": 2500000}
+RUNS = {"quick": 6000, "thorough": 1000000}
 WALL_LIMIT = {"quick": 1200, "thorough": 5 * 3600}
 PROBES = ["expand_twice", "shrink_after_expand", "copy_then_diverge", "validate_in_expanded_state",
           "handwritten_exact", "handwritten_permuted", "handwritten_altered", "placeholder_def_used", "nested_def_depth2plus",
